@@ -39,7 +39,8 @@ Audit extension (same technique: BandLimit.tla first, the harness only drives an
    bounds); laws BandLimit!RouteLaws (rounding up, minimal, idempotent, never lowers the requested band limit, size
    route inverse to the degree route) for every request <= 50; the observed grid.degrees are judged by TLC
    (RouteConforms) and every clause (a)-(h) runs on these grids too (_configs_ext: + ndarray / NumPy-integer degrees,
-   other spellings of the method name (BandLimit!Spell), default centre, two and three shells).
+   other spellings of the method name (BandLimit!Spell) on every route, NumPy-integer rotation seeds, default centre,
+   two and three shells).
  * call modes x point classes - BandLimit!ModeKind says what (deriv, deriv_spherical, only_radial_deriv) returns,
    BandLimit!PointClasses / DemandedKinds where: generic points, beyond the last / below the first node, exactly on
    the +z / -z axis (Cartesian gradient from BandLimit!AxisMeridian, cross-checked against differences of the
@@ -160,7 +161,7 @@ def _configs_ext(tabs, n, rng):
                     "center": [0.0, 0.0, 0.0] if j % 3 == 0 else [rng.uniform(-2, 2) for _ in range(3)],
                     "center_none": j % 6 == 0, "rotate": 0 if j % 2 == 1 else rng.randint(1, 10 ** 6),
                     "fseed": rng.randint(0, 2 ** 31 - 1), "route": route, "req": req, "nshell": ns, "rmilli": rm,
-                    "bounds": bounds, "spell": j % 3, "degform": degform, "radius": 2.0 if j % 2 else 1.0})
+                    "bounds": bounds, "spell": j % 3, "degform": degform, "radius": 2.0 if j % 2 else 1.0, "rot_np": j % 4 == 2})
     return out
 
 
@@ -251,7 +252,7 @@ def _build(cfg):
                             method=cfg["method"])
         # audit extension: the other construction routes (the request is cfg["req"]; cfg["degs"] are the degrees
         # BandLimit!ActualDegs derives from it, cfg["method_arg"] the spelling BandLimit!Spell prescribes)
-        kw = {"rotate": int(cfg["rotate"]), "method": cfg.get("method_arg", cfg["method"])}
+        kw = {"rotate": np.int64(cfg["rotate"]) if cfg.get("rot_np") else int(cfg["rotate"]), "method": cfg.get("method_arg", cfg["method"])}
         if not (cfg.get("center_none") and not any(cfg["center"])):
             kw["center"] = np.array(cfg["center"])
         req = [int(x) for x in cfg["req"]]
@@ -1025,7 +1026,8 @@ def selftest(tier: str) -> int:
         ("degrees-stored-as-requested", lambda: _mutate_method(A, "_generate_atomic_grid", "actual_degrees.append(sphere_grid.degree)", "actual_degrees.append(int(deg_i))", ag.__dict__)),
         ("sizes-route-ignores-method", lambda: _mutate_method(A, "__init__", "convert_angular_sizes_to_degrees(sizes, method=method)", "convert_angular_sizes_to_degrees(sizes, method=\"lebedev\")", ag.__dict__)),
         ("pruned-sector-bounds-halved", lambda: _mutate_method(A, "_find_degrees_for_radial_points", "radial_points[:, None] > r_sectors[None, :]", "radial_points[:, None] > 0.5 * r_sectors[None, :]", ag.__dict__)),
-        ("method-name-kept-as-given", lambda: _mutate_method(A, "__init__", "self._method = method.lower()", "self._method = method", ag.__dict__)),
+        ("method-name-stored-in-capitals", lambda: _mutate_method(A, "__init__", "self._method = method.lower()", "self._method = method.upper()", ag.__dict__)),
+        ("case-folded-only-on-the-degrees-path", lambda: _mutate_method(A, "__init__", "method = method.lower()\n", "pass\n", ag.__dict__)),
         ("single-point-reshape-dropped", lambda: _mutate_method(A, "convert_cartesian_to_spherical", "if points.ndim == 1:", "if False:", ag.__dict__)),
         ("angular-integration-in-place", lambda: _mutate_method(A, "integrate_angular_coordinates", "prod_value = func_vals * self.weights", "prod_value = np.multiply(func_vals, self.weights, out=func_vals if func_vals.dtype == np.float64 and func_vals.flags.writeable and func_vals.ndim == 1 else None)", ag.__dict__)),
         ("stacked-functions-transposed", lambda: _mutate_method(A, "integrate_angular_coordinates", "np.moveaxis(radial_coefficients, 0, -1)", "radial_coefficients.T", ag.__dict__)),
